@@ -104,7 +104,7 @@ def _run_case(case):
     combos = [(x, y, s) for x in values(a) for y in values(b) for s in values(stop)]
     if any(int(s) < 0 or int(s) > 12 for _, _, s in combos):
         raise InvalidCase("stop")
-    if len(combos) * reps > 64:
+    if len(combos) * reps > 400:
         raise InvalidCase("too large")
     sigs = [f"a={x},b={y},stop={s}" for x, y, s in combos]
     params = {"a": a, "b": b, "stop": stop, "cost": cost}
@@ -213,7 +213,7 @@ def _run_case(case):
         flat = [id(x) for x in res] + ([id(v) for r in res for v in r.values()] if coll != "rec" else [])
         if len(set(flat)) != len(flat):
             raise Violation("results-shared", f"{desc}: the same list object is returned for several executions")
-    labels = [f"procs{min(procs, 4)}{'+' if procs >= 4 else ''}", f"reps{reps}", "coll-" + ("rec" if coll == "rec" else ("list1" if coll == ["rec"] else ("pre+rec" if coll[0] == "pre" else "list2")))]
+    labels = (["runs>64"] if len(combos) * reps > 64 else []) + [f"procs{min(procs, 4)}{'+' if procs >= 4 else ''}", f"reps{reps}", "coll-" + ("rec" if coll == "rec" else ("list1" if coll == ["rec"] else ("pre+rec" if coll[0] == "pre" else "list2")))]
     if max_ts is not None:
         labels.append("limit-below" if any(int(max_ts) < int(s) for _, _, s in combos) else "limit-at-or-above")
     if len(set(sigs)) < len(sigs):
@@ -231,6 +231,19 @@ def _tup(x):
 
 def strategy(tier):
     maxp = 5 if tier == "quick" else 16
+    from vf.fixtures import near_pow2
+    # long batches: chunked / batched dispatch only differs from one-task-per-run beyond a size threshold
+    long_batch = near_pow2(33, 130).flatmap(lambda n: st.fixed_dictionaries({
+        "a": st.just(list(range(n))), "b": st.just(0), "stop": st.sampled_from([1, 2]), "cost": st.just(0), "reps": st.sampled_from([1, 1, 2]),
+        "processes": st.sampled_from([1, 2, 3, 4, maxp]), "max_timesteps": st.sampled_from([None, 1]),
+        "collectors": st.sampled_from(["rec", ["pre", "rec"]]), "plist": st.booleans(), "coll_tuple": st.booleans(),
+        "fail": st.one_of(st.none(), st.none(), st.integers(0, 129)), "fail_where": st.sampled_from(["ctor", "system"]),
+        "fail_exc": st.sampled_from(["injected", "stopiteration"])}))
+    small = _small(maxp)
+    return wone_of(*([small] * 11 + [long_batch]))
+
+
+def _small(maxp):
     small = st.lists(st.integers(0, 3), min_size=1, max_size=3)
     return st.fixed_dictionaries({
         "a": wone_of(small, small, st.integers(0, 3)),
